@@ -550,6 +550,40 @@ pub fn run(ctx: &mut Ctx) -> Report {
 		}
 		s.rep.exhaustive.push(format!("SignatureAlgorithm::from_oid on {} identifiers: every registered PKIX signature OID, every proper prefix, one-component extension, last-component neighbour and reversal of the OIDs rcgen knows, and the empty OID", queries.len()));
 	}
+	// SubjectPublicKeyInfo import is a reader of the structure, not of the key: the key bits come
+	// back as they stand whatever their first octet is (an Ed25519 key starts with any octet; one
+	// in 256 starts with zero)
+	#[cfg(not(feature = "nocrypto"))]
+	{
+		for first in 0u16..=255 {
+			let mut key = vec![first as u8];
+			key.extend((1u8..32).map(|i| i.wrapping_mul(first as u8 ^ 0x5b)));
+			let mut spki = vec![0x30, 0x2a, 0x30, 0x05, 0x06, 0x03, 0x2b, 0x65, 0x70, 0x03, 0x21, 0x00];
+			spki.extend_from_slice(&key);
+			let real = match std::panic::catch_unwind(|| SubjectPublicKeyInfo::from_der(&spki)) {
+				Ok(Ok(sp)) => {
+					if sp.der_bytes() != &key[..] || sp.algorithm() != &PKCS_ED25519 {
+						s.rep.violate("C11:spki-import-keeps-key-bits", "an imported SubjectPublicKeyInfo hands out other key bits than it was given", format!("spki={}
+key bits handed out: {}", hex(&spki), hex(sp.der_bytes())));
+					}
+					format!("(ok {} {})", alg_name(sp.algorithm()), hex(sp.der_bytes()))
+				},
+				Ok(Err(_)) => {
+					s.rep.violate("C11:spki-import-keeps-key-bits", "a well-formed Ed25519 SubjectPublicKeyInfo is refused", hex(&spki));
+					"err".to_string()
+				},
+				Err(_) => "panic".to_string(),
+			};
+			s.rep.case(&format!("spki-from-der first-octet {}", first), true);
+			let model = s.drv.ask(&format!("spki-from-der {} {}", backend(), hex(&spki)));
+			if model != real {
+				s.rep.disagree("C11:spki-from-der", "model and implementation differ on SubjectPublicKeyInfo::from_der", format!("spki={}
+real: {}
+model: {}", hex(&spki), real, model));
+			}
+		}
+		s.rep.exhaustive.push("Ed25519 SubjectPublicKeyInfo structures whose key bits start with each octet value 0..=255, imported".into());
+	}
 	s.rep.exhaustive.push("every key document x every loading entry point x every public algorithm constant of the build; all pairs of algorithm constants for ==/hash".into());
 	let req = s.drv.requests;
 	s.rep.add("driver_requests", req);
